@@ -5140,6 +5140,10 @@ where
                 for (_, cell) in &tds.cells {
                     cell.is_valid().map_err(de::Error::custom)?;
                 }
+                // Two entries describing the same vertex set share every facet pairwise, so the
+                // neighbour rebuild above accepts them; reject the duplicate explicitly.
+                tds.validate_no_duplicate_cells()
+                    .map_err(de::Error::custom)?;
 
                 Ok(tds)
             }
